@@ -431,6 +431,7 @@ pub fn run(mut ctx: Ctx, which: &str) -> ! {
             }
         }
     }
+    run::cleanup_members(&pkgs.iter().map(|p| p.name.clone()).collect::<Vec<_>>());
     let min = if ctx.replay.is_some() { 0 } else { 5 };
     ctx.finish(rp.rule, rp.assumptions, min)
 }
